@@ -197,7 +197,7 @@ def run_explain(src):
             names = {}
             for name, index in cnf.get_names():
                 if isinstance(index, int) and index > 0:
-                    names.setdefault(str(name), index)
+                    names.setdefault(str(name), set()).add(index)
             weighted = sorted(cnf.get_weights())
             atomcount = cnf.atomcount
             db2 = DefaultEngine().prepare(PrologString(src))
@@ -349,7 +349,12 @@ def check_explain(case):
             m = ref.full
             for pos, text in lits:
                 mm = re.match(r"^choice_(\d+)$", text)
-                index = int(mm.group(1)) if mm else names.get(text)
+                # the printed name can belong to several nodes (a probabilistic fact p and the derived atom p):
+                # the literal is the one that is a probabilistic atom
+                cand = [int(mm.group(1))] if mm else sorted(i for i in names.get(text, ()) if i in target_of)
+                if len(cand) > 1:
+                    return Outcome(inconclusive="ambiguous-literal-name", features=sorted(feats))
+                index = cand[0] if cand else None
                 tg = target_of.get(index) if index is not None else None
                 if tg is None:
                     if index is not None and index in target_of and unmapped:
